@@ -3,6 +3,7 @@ import CssVerif.Model.CodecInc
 import CssVerif.Model.CodecInner
 import CssVerif.Lemmas.CodecEncInner
 import CssVerif.Model.CodecStream
+import CssVerif.Model.CodecErr
 open CssVerif.Proto CssVerif.Codec
 
 def showEnc : Enc → String
@@ -97,16 +98,20 @@ def ienc (c : CName) (chunks : List (List Nat)) : String :=
     (match incEncode c chunks with | none => "RAISE" | some t => encCps t) ++ " | " ++
     (match statelessEncode c chunks.flatten with | none => "RAISE" | some t => encCps t)
 
-/-- `cdec given force chunk…`: the CSS incremental decoder over CPython's inner decoders (`cpyInner`):
-per-chunk outputs | final output | one-shot -/
+/-- `cdec given force chunk…`: the CSS incremental decoder over CPython's inner decoders (`cpyInner`), with
+the exception: per-chunk outputs (`RAISE` ends the list) then the final output | all | one-shot -/
 def cdec (given : Option Name) (force : Bool) (chunks : List (List Nat)) : String :=
-  let rec go (s : DSt) (cs : List (List Nat)) (acc : List String) : DSt × List String :=
+  let rec go (s : DSt) (cs : List (List Nat)) (acc : List String) : List String :=
     match cs with
-    | [] => (s, acc.reverse)
-    | c :: cs => let r := step cpyInner s c false; go r.1 cs (encCps r.2 :: acc)
-  let r := go (.waiting given force []) chunks []
-  let fin := step cpyInner r.1 [] true
-  " ".intercalate r.2 ++ " | " ++ encCps fin.2 ++ " | " ++ encCps (oneShot cpyInner given force chunks.flatten)
+    | [] => match stepE cpyInner s [] true with
+      | none => ("RAISE" :: acc).reverse
+      | some r => (encCps r.2 :: acc).reverse
+    | c :: cs => match stepE cpyInner s c false with
+      | none => ("RAISE" :: acc).reverse
+      | some r => go r.1 cs (encCps r.2 :: acc)
+  " ".intercalate (go (.waiting given force []) chunks []) ++ " | " ++
+    (match runAllE cpyInner given force chunks with | none => "RAISE" | some t => encCps t) ++ " | " ++
+    (match oneShotE cpyInner given force chunks.flatten with | none => "RAISE" | some t => encCps t)
 
 def cenc (given : Option Name) (chunks : List (List Nat)) : String :=
   let rec go (s : ESt) (cs : List (List Nat)) (acc : List String) : ESt × List String :=
